@@ -74,6 +74,7 @@ type KReport struct {
 	End     time.Time
 	Vol     [6]uint64 // total ul dl totalpkt ulpkt dlpkt
 	Known   bool      // URR existed in the kernel when produced
+	Lost    bool      // produced but the reply carrying it was replaced by an injected error
 }
 
 type kconn struct {
@@ -491,6 +492,14 @@ func cstr(b []byte) string {
 func (k *Kernel) exec(r *NLReq, f *FaultSpec, pid uint32) (int, [][]byte) {
 	rule, exists := k.rules[r.Key]
 	r.Exists = exists
+	repFrom := len(k.reports)
+	defer func() {
+		if f != nil && (f.Late || f.Empty) {
+			for _, rep := range k.reports[repFrom:] {
+				rep.Lost = true
+			}
+		}
+	}()
 	reject := f != nil && !f.Late && !f.Empty
 	if reject {
 		return f.Errno, nil
